@@ -3,16 +3,18 @@ import PysphVerif.Gen.Precomp
 import PysphVerif.Lemmas.CodegenSort
 import PysphVerif.Lemmas.CodegenClosure
 import PysphVerif.Lemmas.CodegenWiring
+import PysphVerif.Lemmas.CodegenGroups
 /-!
 # C02 — compiled equations compute what the Python equation source says
 
 Property theorems only (helper lemmas: `Lemmas/CodegenSort.lean`,
-`Lemmas/CodegenClosure.lean`, `Lemmas/CodegenWiring.lean`).  They are about
+`Lemmas/CodegenClosure.lean`, `Lemmas/CodegenWiring.lean`, `Lemmas/CodegenGroups.lean`).  They are about
 * the table `Gen/Precomp.lean`, regenerated from `equation.py::precomputed_symbols()`
   and `docs/source/design/equations.rst` on every run, and
 * the model `Model/Codegen.lean` of `sort_precomputed`, `Group._setup_precomputed`,
-  `MegaGroup._make_data` and the pointer / declaration / scratch-vector set-up of
-  `acceleration_eval_cython_helper.py`.
+  `MegaGroup._make_data`, the pointer / declaration / scratch-vector set-up and the call
+  sites of the group callables (`_compute_group_map`, `get_condition_call`, `get_pre_call`,
+  `get_post_call`) of `acceleration_eval_cython_helper.py`.
 What transpiled *user* code computes (compyle, Cython, g++) is outside every model
 and is carried by differential execution in `harness/c02.py` (testing).
 -/
@@ -206,5 +208,91 @@ example : (wiring symbolsTable
          db.srcs.map (fun sb => (sb.source, sb.assigns.map (·.lhs))))) =
     [("f", ["d_au", "d_h", "d_x", "d_y", "d_z"], [("s", ["s_h", "s_m", "s_x", "s_y", "s_z"])])] := by
   decide +kernel
+
+/-! ## 5. the callables of a group are called for that group
+
+Whether the equations of a group run at all is decided by ITS `condition(t, dt)`, and ITS
+`pre` / `post` run before / after it: each call site in the generated `compute` must refer to
+the group in whose text it stands. -/
+
+/-- the group objects are pairwise distinct (they are: each `MegaGroup` is a fresh object) -/
+def DistinctObjects (gs : List GTop) : Prop := ((allNodes gs).map (fun np => np.1.uid)).Nodup
+
+/-- Every `….condition(t, dt)`, `….pre()`, `….post()` of the generated `compute` refers to
+`self.groups[i]` / `self.groups[i].data[k]` with (i, k) the POSITION of the group in whose text
+the call stands — for every list of groups and sub-groups, whatever their `name`s are (none,
+unique, or the same label on several of them). -/
+theorem callsites_own_group (gs : List GTop) (hd : DistinctObjects gs) :
+    ∀ s ∈ callSites gs, s.target = some s.site :=
+  callSitesBy_own GNode.uid gs hd
+
+/-- …and every callable a group has is called there: a group at position `p` with a
+`condition` / `pre` / `post` has the site `(kind, p, p)`. -/
+theorem callsites_complete (gs : List GTop) (hd : DistinctObjects gs) (np : GNode × GPos)
+    (hnp : np ∈ allNodes gs) :
+    (np.1.hasCond = true → (⟨.cond, np.2, some np.2⟩ : CallSite) ∈ callSites gs) ∧
+    (np.1.hasPre = true → (⟨.pre, np.2, some np.2⟩ : CallSite) ∈ callSites gs) ∧
+    (np.1.hasPost = true → (⟨.post, np.2, some np.2⟩ : CallSite) ∈ callSites gs) := by
+  have hl : gmLookup (groupMapBy GNode.uid gs) np.1.uid = some np.2 := by
+    apply gmLookup_of_mem
+    · unfold groupMapBy; rw [List.map_map]; exact hd
+    · unfold groupMapBy; exact List.mem_map.mpr ⟨np, hnp, rfl⟩
+  have hsub := nodeSites_sub_callSitesBy GNode.uid gs np hnp
+  refine ⟨fun h => hsub _ ?_, fun h => hsub _ ?_, fun h => hsub _ ?_⟩ <;>
+    simp [nodeSites, siteIf, h, hl]
+
+/-- the positions the map hands out are the positions of the group tree: top-level groups are
+numbered in order, the sub-groups of each in order -/
+theorem group_positions (gs : List GTop) :
+    (allNodes gs).map (·.2) =
+      gs.zipIdx.flatMap (fun gt =>
+        (⟨gt.2, none⟩ : GPos) :: (List.range gt.1.subs.length).map (fun k => ⟨gt.2, some k⟩)) := by
+  unfold allNodes
+  rw [List.map_flatMap]
+  congr 1
+  funext gt
+  unfold topNodes
+  simp only [List.map_cons, List.map_map, List.cons.injEq, true_and]
+  generalize gt.1.subs = l
+  have : ∀ (l : List GNode) (n : Nat),
+      (l.zipIdx n).map ((fun (np : GNode × GPos) => np.2) ∘
+        (fun (sk : GNode × Nat) => (sk.1, (⟨gt.2, some sk.2⟩ : GPos)))) =
+      (List.range' n l.length).map (fun k => (⟨gt.2, some k⟩ : GPos)) := by
+    intro l
+    induction l with
+    | nil => intro n; rfl
+    | cons a l ih => intro n; simp [List.range'_succ, ih]
+  rw [this l 0, List.range_eq_range']
+
+/-- Why the key must be the object: if the map were keyed by `group.name`, two groups with
+the same label would share one entry (the later assignment wins) — the first group would be
+run under the SECOND group's condition, between the second group's pre and post. -/
+theorem name_keyed_map_misdispatches :
+    callSitesBy GNode.name
+      [⟨⟨0, "density", true, true, true⟩, []⟩, ⟨⟨1, "density", true, true, true⟩, []⟩] =
+    [⟨.cond, ⟨0, none⟩, some ⟨1, none⟩⟩, ⟨.pre, ⟨0, none⟩, some ⟨1, none⟩⟩,
+     ⟨.post, ⟨0, none⟩, some ⟨1, none⟩⟩,
+     ⟨.cond, ⟨1, none⟩, some ⟨1, none⟩⟩, ⟨.pre, ⟨1, none⟩, some ⟨1, none⟩⟩,
+     ⟨.post, ⟨1, none⟩, some ⟨1, none⟩⟩] := by decide
+
+/-- two top-level groups labelled `density`, a parent whose sub-groups are both labelled `sweep`
+and a sub-group labelled like a top-level group -/
+def sameNameGroups : List GTop :=
+  [⟨⟨0, "density", true, true, false⟩, []⟩, ⟨⟨1, "density", true, false, true⟩, []⟩,
+   ⟨⟨2, "outer", false, true, true⟩,
+    [⟨3, "sweep", true, true, false⟩, ⟨4, "sweep", true, false, true⟩,
+     ⟨5, "density", false, true, false⟩]⟩]
+
+/-- non-vacuity: distinct objects with shared names, and every site is its own -/
+example : DistinctObjects sameNameGroups ∧
+    callSites sameNameGroups =
+      [⟨.cond, ⟨0, none⟩, some ⟨0, none⟩⟩, ⟨.pre, ⟨0, none⟩, some ⟨0, none⟩⟩,
+       ⟨.cond, ⟨1, none⟩, some ⟨1, none⟩⟩, ⟨.post, ⟨1, none⟩, some ⟨1, none⟩⟩,
+       ⟨.pre, ⟨2, none⟩, some ⟨2, none⟩⟩,
+       ⟨.cond, ⟨2, some 0⟩, some ⟨2, some 0⟩⟩, ⟨.pre, ⟨2, some 0⟩, some ⟨2, some 0⟩⟩,
+       ⟨.cond, ⟨2, some 1⟩, some ⟨2, some 1⟩⟩, ⟨.post, ⟨2, some 1⟩, some ⟨2, some 1⟩⟩,
+       ⟨.pre, ⟨2, some 2⟩, some ⟨2, some 2⟩⟩,
+       ⟨.post, ⟨2, none⟩, some ⟨2, none⟩⟩] :=
+  ⟨by unfold DistinctObjects; decide, by decide⟩
 
 end PysphVerif.Props.C02
